@@ -62,3 +62,24 @@ reg("C01", EX, "small-scope exhaustive enumeration of cell data x meshes x confi
     "depth 3 (implicit quick: 2) over (integrator, CFL) transitions of every integrator class from every non-uniform assignment, 1D and 2D.",
     "alphabet lattice only; open-boundary fluxes read from the 'flux' attribute; inadmissible reconstructions counted and skipped; implicit classes to 1e-6(1+CFL)",
     "DESIGN.md 3/C01")
+reg("C09", MC, "packed stencil windows (exhaustive over an alphabet, one real step) + BFS over real step() transitions from every data assignment, invariant checked on every transition",
+    "All 3-windows over (state x cell-width) letters for first-order upwind convection of either sign at CFL 1 and 1/2, and all 5-windows over "
+    "the state alphabet for MUSCL with each limiter (convection of either sign, Burgers) at CFL 1/2 and 1/4 are packed into one periodic mesh "
+    "and advanced by one real forward-Euler step at the window's CFL step: the new centre value stays in the window's range (over the "
+    "alphabet this is equivalent to the global maximum principle on meshes of any size). Range and total variation are then checked after "
+    "every transition of a depth-3 BFS over real steps of explicit/rk2_heun/rk3ssp from every data assignment on periodic meshes n=3..5 (6).",
+    "alphabet lattice (BFS reaches non-alphabet values after one step); tolerance 16 eps; Burgers u==0 excluded", "DESIGN.md 3/C09")
+reg("C10", MC, "packed stencil windows over a strong alphabet (exhaustive, one real step) + BFS over real SSP steps from every data assignment",
+    "All 3-windows over a strong alphabet closed under u->-u (Euler: 112-144 states, up to 2 985 984 windows per flux and CFL; shallow water "
+    "36 states) are packed into one periodic mesh and advanced by one real forward-Euler step at the window's CFL step (1/2, 1/4) for "
+    "hlle/hllc and rusanov/hll: density, pressure, depth of every centre cell stay positive and finite (wall windows are included by "
+    "closure under reflection). BFS depth 3 over real steps of explicit/rk2_heun/rk3ssp from every assignment of a 6-letter strong "
+    "alphabet to 2-3 (4) cells, periodic and sym.",
+    "alphabet lattice only; the window step is the min of calc_timestep over the window", "DESIGN.md 3/C10")
+reg("C11", EX, "small-scope exhaustive enumeration: all width vectors x profiles x reconstructions; operator matrix from all unit impulses; 2D face states of all unit impulses",
+    "Face states of the real discretisation for constant and linear profiles on every width vector of {1/2,1,2}^n (n<=5, thorough 6; dyadic "
+    "and non-dyadic scalings) for all 16 reconstructions, interior faces and the periodic seam (data linear across the seam); extrapol1 on "
+    "every data assignment; the operator matrix read off the real rhs on all unit impulses for n=1..8, both convection signs and 3 mesh "
+    "placements against the circulant kappa stencil, with linearity checked; 2D: face states for a unit impulse at every cell of every "
+    "periodic grid (nx,ny) in {1..4}^2 against the kappa stencil along x on i-faces and along y on j-faces.",
+    "profile/mesh lattice only; tolerance 32 eps (+1e-20 regularisation for vanalbada/vanleer)", "DESIGN.md 3/C11")
